@@ -102,7 +102,7 @@ class ExcelArrayOps(object):
             # a one-item array (a one-cell range [[v]]) acts as its item - but two one-row
             # ranges [[a,b,c]] and [[d,e,f]] pair row with row.  (Two levels, not "while": a
             # list that contains itself would be unwrapped for ever.)
-            if isinstance(value, list) and len(value) == 1 and len(self.arr) != 1:
+            if isinstance(value, list) and len(value) == 1 and len(self.arr) > 1:
                 value = value[0]
         if not isinstance(value, list):
             value = [value for i in range(len(self.arr))]
